@@ -1,6 +1,6 @@
 package pongo2
 
-import "os"
+import "io"
 
 type tagSSINode struct {
 	filename string
@@ -41,7 +41,12 @@ func tagSSIParser(doc *Parser, start *Token, arguments *Parser) (INodeTag, *Erro
 			SSINode.template = temporaryTpl
 		} else {
 			// plaintext
-			buf, err := os.ReadFile(doc.template.set.resolveFilename(doc.template, fileToken.Val))
+			// read it through the set's loaders, like every other template reference
+			var buf []byte
+			_, _, fd, err := doc.template.set.resolveTemplate(doc.template, fileToken.Val)
+			if err == nil {
+				buf, err = io.ReadAll(fd)
+			}
 			if err != nil {
 				return nil, (&Error{
 					Sender:    "tag:ssi",
